@@ -32,6 +32,8 @@ def tasks(tier, seed):
         t.append(("contracts.prox", "task", ("hier", (k, h, st, 1), seed), to, f"hier_prox[{k},{h},{st}]"))
     for s in (dict(n=1, d=1, K=2, cuts=1), dict(n=2, d=2, K=2, cuts=1), dict(n=1, d=1, K=2, cuts=2)):
         t.append(("contracts.models_vjp", "task", ("douglas", tuple(s.items()), "", seed), to, f"douglas backprop {s}"))
+    # B: the same contracts replayed on the real code at a ladder of larger shapes (stand-in for the missing induction over sizes)
+    t.append(("contracts.size_ladder", "task", ("invariance", tier, seed, (("whats", ("onehot", "duplicates", "empty", "empty2")),)), 1500, "size ladder: degenerate predictions"))
     return t
 
 
